@@ -55,7 +55,7 @@ func (fr *frame) site(instr ssa.Instruction) string {
 var deniedPkgs = map[string]bool{
 	"fmt": true, "reflect": true, "internal/reflectlite": true, "sync": true, "sync/atomic": true,
 	"runtime": true, "os": true, "time": true, "internal/bytealg": true, "unsafe": true,
-	"encoding/gob": true, "encoding/json": true, "encoding/base64": true, "syscall": true,
+	"encoding/gob": true, "encoding/json": true, "syscall": true,
 	"log": true, "os/signal": true, "os/exec": true, "net": true, "io/fs": true, "path/filepath": true,
 	"runtime/debug": true, "testing": true, "flag": true, "bufio": false, "math/rand": true, "hash/crc32": true,
 	"crypto/rand": true, "math/big": true, "io/ioutil": true, "text/tabwriter": true, "regexp": true,
@@ -675,4 +675,85 @@ func (i *interpreter) mapHint(x value, site string) int64 {
 		}
 	}
 	return 0
+}
+
+// symTableRead implements tbl[idx] for a symbolic idx over a table of 2..1024
+// concrete scalars of one kind: out-of-range forks and panics as Go does; in
+// range the result is one SMT term (run-length encoded ite chain) in a
+// temporary cell, instead of one path per index value. Returns nil when the
+// table is not of that shape.
+func (i *interpreter) symTableRead(tbl []value, idx value, site string) *value {
+	s, ok := idx.(sym)
+	if !ok || len(tbl) < 2 || len(tbl) > 1024 {
+		return nil
+	}
+	k0, ok := kindOfValue(tbl[0])
+	if !ok || isSym(tbl[0]) {
+		return nil
+	}
+	for _, e := range tbl {
+		k, ok := kindOfValue(e)
+		if !ok || k != k0 || isSym(e) {
+			return nil
+		}
+	}
+	w := kindWidth(s.k)
+	var inr string
+	n := uint64(len(tbl))
+	if w < 64 && n >= uint64(1)<<uint(w) {
+		inr = "true"
+	} else if kindSigned(s.k) {
+		inr = fmt.Sprintf("(and (bvsge %s %s) (bvslt %s %s))", s.t, bvLit(0, w), s.t, bvLit(n, w))
+	} else {
+		inr = fmt.Sprintf("(bvult %s %s)", s.t, bvLit(n, w))
+	}
+	if inr != "true" && !i.decide(inr, site+":inrange") {
+		panic(rtErr(fmt.Sprintf("index out of range [%s] with length %d", s.t, len(tbl))))
+	}
+	// run-length encode
+	term := termOf(tbl[len(tbl)-1])
+	for k := len(tbl) - 2; k >= 0; k-- {
+		if termOf(tbl[k]) == termOf(tbl[k+1]) {
+			continue
+		}
+		// indexes <= k hold the value of run ending at k
+		term = fmt.Sprintf("(ite (bvule %s %s) %s %s)", s.t, bvLit(uint64(k), w), "@", term)
+		term = strings.Replace(term, "@", termOf(tbl[k]), 1)
+	}
+	// the chain above tests thresholds from the highest run boundary down,
+	// so rebuild it in ascending order for correctness
+	type run struct {
+		hi  int
+		val string
+	}
+	var runs []run
+	for k := 0; k < len(tbl); k++ {
+		v := termOf(tbl[k])
+		if len(runs) > 0 && runs[len(runs)-1].val == v {
+			runs[len(runs)-1].hi = k
+		} else {
+			runs = append(runs, run{k, v})
+		}
+	}
+	term = runs[len(runs)-1].val
+	for r := len(runs) - 2; r >= 0; r-- {
+		term = fmt.Sprintf("(ite (bvule %s %s) %s %s)", s.t, bvLit(uint64(runs[r].hi), w), runs[r].val, term)
+	}
+	var cell value = i.mkSym(k0, term)
+	if i.tempCells == nil {
+		i.tempCells = map[*value]bool{}
+	}
+	i.tempCells[&cell] = true
+	return &cell
+}
+
+func (i *interpreter) symStringRead(str string, idx value, site string) *value {
+	if _, ok := idx.(sym); !ok || len(str) < 2 || len(str) > 1024 {
+		return nil
+	}
+	tbl := make([]value, len(str))
+	for k := 0; k < len(str); k++ {
+		tbl[k] = str[k]
+	}
+	return i.symTableRead(tbl, idx, site)
 }
